@@ -341,6 +341,8 @@ type sched struct {
 	m        *cors.Middleware
 	switches int
 	inCrit   map[int]bool
+	wrapped  []http.Handler // per task: handler wrapped once in the initial state
+	inner    []*delegateH
 	// dry-run measurement
 	measure bool
 	counts  [][]int
@@ -562,6 +564,10 @@ func clip(s string, n int) string {
 	return s
 }
 
+type delegateH struct{ h http.Handler }
+
+func (d *delegateH) ServeHTTP(w http.ResponseWriter, r *http.Request) { d.h.ServeHTTP(w, r) }
+
 // seamHandler is the wrapped handler: a schedule point and re-entrant calls.
 type seamHandler struct {
 	s     *sched
@@ -620,7 +626,15 @@ func (s *sched) doReq(task int, op COp) {
 	invoked := 0
 	var resp Resp
 	pan := catch(func() {
-		s.m.Wrap(seamHandler{s, task, op.Reent, &invoked}).ServeHTTP(w, q.build())
+		// odd requests of a task go through the task's long-lived wrapped handler
+		// (Wrap called once, before the run started), even ones through a fresh Wrap
+		inner := seamHandler{s, task, op.Reent, &invoked}
+		if t := s.tasks[task]; t.opIdx%2 == 1 && s.wrapped[task] != nil {
+			s.inner[task].h = inner
+			s.wrapped[task].ServeHTTP(w, q.build())
+		} else {
+			s.m.Wrap(inner).ServeHTTP(w, q.build())
+		}
 	})
 	if pan != "" {
 		resp = Resp{Panic: pan}
@@ -694,6 +708,9 @@ func newSched(p *C07Plan, c *Ctx, measure bool) (*sched, bool) {
 		s.preempts[[3]int{pr.Task, pr.Op, pr.Yield}] = pr
 	}
 	for i := range p.Tasks {
+		d := &delegateH{}
+		s.inner = append(s.inner, d)
+		s.wrapped = append(s.wrapped, m.Wrap(d))
 		s.tasks = append(s.tasks, &ctask{id: i, wake: make(chan struct{})})
 		s.counts = append(s.counts, make([]int, len(p.Tasks[i].Ops)))
 		s.classes = append(s.classes, make([][]string, len(p.Tasks[i].Ops)))
